@@ -89,7 +89,7 @@ class C19(Prop):
                         if cp == "raise":
                             log.append(f"cp{i}:{x}:x")
                             raise RuntimeError("cp")
-                        r = {"pass": True, "reject": False, "odd": x % 2 == 1}[cp]
+                        r = True if cp == "pass" else False if cp == "reject" else (isinstance(x, int) and x % 2 == 1)
                         log.append(f"cp{i}:{x}:{'t' if r else 'f'}")
                         return r
                     return f
